@@ -9,7 +9,7 @@ items = []
 for meta in sorted(glob.glob("/verif/seeded/*/meta.json")):
     m = json.load(open(meta))
     d = os.path.dirname(meta)
-    if m.get("status_on_head") in ("neutralised", "moved"):
+    if m.get("status_on_head"):
         print(m["seed_id"], "-", m["status_on_head"], "on HEAD:", m["status_on_head_note"][:120], flush=True)
         continue
     for s in seeds:
